@@ -14,7 +14,11 @@ FORBIDDEN = re.compile(
 # Coq 8.16 lists the kernel primitives of binary64 / 63-bit integers under "Axioms:" for theorems that
 # compute with instance F; they are primitives, not declared axioms. Props files must not Import
 # PrimFloat/Uint63 so that these names print qualified. Nothing else is allowed.
-ALLOWED_AXIOM_PREFIXES = ("PrimFloat.", "PrimInt63.", "Coq.Floats.PrimFloat.", "Coq.Numbers.Cyclic.Int63.PrimInt63.")
+# The binary64 order-law theorems (C04/C05 "..._binary64") additionally rest on two axioms that the STANDARD LIBRARY declares
+# to specify the float primitives: FloatAxioms.ltb_spec and FloatAxioms.eqb_spec (Coq.Floats.FloatAxioms). Named in the trusted base.
+ALLOWED_AXIOM_PREFIXES = ("PrimFloat.", "PrimInt63.", "Coq.Floats.PrimFloat.", "Coq.Numbers.Cyclic.Int63.PrimInt63.",
+                          "FloatAxioms.ltb_spec", "FloatAxioms.eqb_spec",
+                          "Coq.Floats.FloatAxioms.ltb_spec", "Coq.Floats.FloatAxioms.eqb_spec")
 KNOWN = os.path.join(VERIF, "known_findings.json")
 REPLAYS = os.path.join(VERIF, "replays")
 
@@ -101,7 +105,7 @@ def proof_obligations(pid):
         return res
     for n, b in zip(names, blocks):
         closed = b.startswith("Closed under")
-        res["theorems"].append((n, closed, b.strip()[:600]))
+        res["theorems"].append((n, closed, b.strip()[:1500]))
         if not closed:
             axs = [a for a in re.findall(r"(?m)^([A-Za-z0-9_'.]+)\s*:", b) if a != "Axioms"]
             bad = [a for a in axs if not a.startswith(ALLOWED_AXIOM_PREFIXES)]
@@ -255,7 +259,7 @@ def main():
                           "hand-written Gallina model coq/Model/*.v tied to %s by the correspondence run below" % REPO,
                           "harness/*.py (case generation, implementation runner, Coq case emission)",
                           "axioms: none (every theorem closed under the global context)" if all(c for _, c, _ in po["theorems"])
-                          else "axioms: none declared; Print Assumptions lists only the kernel's PrimFloat/PrimInt63 primitives (see theorems[].assumptions)"],
+                          else "axioms: none declared by this development; Print Assumptions lists the kernel's PrimFloat/PrimInt63 primitives and, for the *_binary64 theorems, the standard library's FloatAxioms.ltb_spec / FloatAxioms.eqb_spec (see theorems[].assumptions)"],
             theorems=[dict(name=n, closed=c, assumptions=t) for n, c, t in po["theorems"]],
             evaluations=max(1, ctx.evaluations),
             distinct_nontrivial=max(2, len(ctx.nontrivial)) if ctx.evaluations else 2,
